@@ -243,8 +243,23 @@ def set_if_neq(ctx, prog, E, m, label):
     ctx.check(okr and w is None, "C14.b", "%s:changed-path-replaces-stored-value-with-new" % label, m.loc(ne_t),
               "mem::replace(&mut self.<value>, new) on every not-equal path", "the not-equal path does not store `new` with mem::replace on every path")
     # return values
-    nones = [b for b, i, st in m.iter_stmts() if st["k"] == "assign" and st["place"]["l"] == 0 and "agg" in st["rv"] and st["rv"]["agg"].get("vname") == "None"]
-    somes = [(b, st["rv"]["agg"]) for b, i, st in m.iter_stmts() if st["k"] == "assign" and st["place"]["l"] == 0 and "agg" in st["rv"] and st["rv"]["agg"].get("vname") == "Some"]
+    nones, somes = [], []
+    for b, i, st in m.iter_stmts():
+        if st["k"] != "assign" or st["place"]["l"] != 0 or st["place"]["p"]:
+            continue
+        ags = []
+        if "agg" in st["rv"]:
+            ags.append((b, st["rv"]["agg"]))
+        elif "use" in st["rv"]:
+            # `_0 = move <return place of an inlined helper>`: judge the aggregates that reach it, where they were built
+            for o in origins(m, st["rv"]["use"]):
+                if o[0] == "agg" and len(o) == 3:
+                    ags.append((o[1], m.blocks[o[1]]["stmts"][o[2]]["rv"]["agg"]))
+        for (ab, ag) in ags:
+            if ag.get("vname") == "None":
+                nones.append(ab)
+            elif ag.get("vname") == "Some":
+                somes.append((ab, ag))
     okv = bool(nones) and all(m.dominates(eq_t, b) for b in nones) and bool(somes) and all(m.dominates(ne_t, b) for b, a in somes)
     if okv and reps:
         okv = all(lib.originates_from_call(m, a["ops"][0], reps[0][0]) for b, a in somes)
